@@ -187,4 +187,170 @@ theorem mem_regionList (src : Str) (sp : TSpan) (k : Nat) :
     rw [hg]
     exact hq
 
+/-! ### a position names a character of a line of `readlines` (ties the position arithmetic to the renderer's line loading) -/
+
+open Tranp.Quote in
+theorem readlines_head (c : Char) (cs : Str) : ∃ t rest, readlines (c :: cs) = (c :: t) :: rest := by
+  simp only [readlines]
+  split
+  · exact ⟨[], _, rfl⟩
+  · split
+    · exact ⟨[], [], rfl⟩
+    · exact ⟨_, _, rfl⟩
+
+open Tranp.Quote in
+/-- The position `q` computed for offset `k` (counting from position `p` at the head of `s`) names the piece of `readlines s`
+    and the index inside that piece where the character `s[k]` stands. -/
+theorem posFrom_char (p : P) (s : Str) (k : Nat) (hk : k < s.length) (q : P) (hq : posFrom p s k = q) :
+    p.line ≤ q.line
+    ∧ (q.line = p.line → p.col ≤ q.col)
+    ∧ (q.line ≠ p.line → 1 ≤ q.col)
+    ∧ ∃ l, (readlines s)[(q.line - p.line).toNat]? = some l
+        ∧ l[(q.col - (if q.line = p.line then p.col else 1)).toNat]? = s[k]? := by
+  induction s generalizing p k with
+  | nil => simp at hk
+  | cons c cs ih =>
+    cases k with
+    | zero =>
+      obtain ⟨t, rest, hr⟩ := readlines_head c cs
+      simp only [posFrom] at hq
+      subst hq
+      refine ⟨by omega, by intro _; omega, by intro h; exact absurd rfl h, c :: t, ?_, ?_⟩
+      · simp [hr]
+      · simp
+    | succ k =>
+      have hk' : k < cs.length := by simpa using hk
+      simp only [posFrom] at hq
+      obtain ⟨h1, h2, h3, l, hl, hc⟩ := ih (advance p c) k hk' hq
+      simp only [List.getElem?_cons_succ]
+      by_cases hn : c = '\n'
+      · have hp : advance p c = ⟨p.line + 1, 1⟩ := by simp [advance, hn]
+        rw [hp] at h1 h2 h3 hl hc
+        simp only at h1 h2 h3 hl hc
+        have hne : q.line ≠ p.line := by omega
+        refine ⟨by omega, by omega, ?_, l, ?_, ?_⟩
+        · intro _
+          by_cases he : q.line = p.line + 1
+          · have := h2 he; omega
+          · exact h3 he
+        · have hidx : (q.line - p.line).toNat = (q.line - (p.line + 1)).toNat + 1 := by omega
+          simp only [readlines, hn, if_true, hidx, List.getElem?_cons_succ]
+          exact hl
+        · simp only [hne, if_false]
+          have : (if q.line = p.line + 1 then (1 : Int) else 1) = 1 := by split <;> rfl
+          rw [this] at hc
+          exact hc
+      · have hp : advance p c = ⟨p.line, p.col + 1⟩ := by simp [advance, hn]
+        rw [hp] at h1 h2 h3 hl hc
+        simp only at h1 h2 h3 hl hc
+        obtain ⟨c2, cs2, hcs⟩ : ∃ c2 cs2, cs = c2 :: cs2 := by
+          cases cs with
+          | nil => simp at hk'
+          | cons a b => exact ⟨a, b, rfl⟩
+        obtain ⟨t, rest, hr⟩ := readlines_head c2 cs2
+        rw [← hcs] at hr
+        have hrl : readlines (c :: cs) = (c :: c2 :: t) :: rest := by
+          simp only [readlines, hn, if_false, hr]
+        by_cases he : q.line = p.line
+        · have hcol := h2 he
+          refine ⟨by omega, by intro _; omega, by intro h; exact absurd he h, c :: c2 :: t, ?_, ?_⟩
+          · simp [hrl, he]
+          · simp only [he, if_true] at hc ⊢
+            have hz : (p.line - p.line).toNat = 0 := by omega
+            rw [he, hz, hr] at hl
+            simp only [List.getElem?_cons_zero, Option.some.injEq] at hl
+            subst hl
+            have hidx : (q.col - p.col).toNat = (q.col - (p.col + 1)).toNat + 1 := by omega
+            rw [hidx, List.getElem?_cons_succ]
+            exact hc
+        · refine ⟨by omega, by intro h; exact absurd h he, by intro _; exact h3 he, l, ?_, ?_⟩
+          · obtain ⟨m, hm⟩ : ∃ m, (q.line - p.line).toNat = m + 1 := ⟨(q.line - p.line).toNat - 1, by omega⟩
+            rw [hm, hr] at hl
+            rw [hm, hrl]
+            simpa using hl
+          · simp only [he, if_false] at hc ⊢
+            exact hc
+
+open Tranp.Quote in
+/-- every piece of `readlines` is a run of non-line-feed characters, possibly closed by one line feed -/
+theorem readlines_pieces (c : Str) : ∀ raw ∈ readlines c, ∃ body : Str, '\n' ∉ body ∧ (raw = body ∨ raw = body ++ ['\n']) := by
+  induction c with
+  | nil => intro raw h; simp [readlines] at h
+  | cons x xs ih =>
+    intro raw h
+    by_cases hx : x = '\n'
+    · simp only [readlines, hx, if_true, List.mem_cons] at h
+      rcases h with h | h
+      · exact ⟨[], by simp, Or.inr (by simp [h])⟩
+      · exact ih raw h
+    · simp only [readlines, hx, if_false] at h
+      cases hr : readlines xs with
+      | nil =>
+        rw [hr] at h
+        simp only [List.mem_singleton] at h
+        exact ⟨[x], by simp; exact fun e => hx e.symm, Or.inl h⟩
+      | cons l ls =>
+        rw [hr] at h ih
+        simp only [List.mem_cons] at h
+        rcases h with h | h
+        · obtain ⟨body, hb, hraw⟩ := ih l (by simp)
+          refine ⟨x :: body, ?_, ?_⟩
+          · simp only [List.mem_cons, not_or]; exact ⟨fun e => hx e.symm, hb⟩
+          · rcases hraw with e | e
+            · exact Or.inl (by rw [h, e])
+            · exact Or.inr (by rw [h, e]; rfl)
+        · exact ih raw (by simp [h])
+
+open Tranp.Quote in
+theorem dropNl_of_body (body : Str) (hb : '\n' ∉ body) : dropNl body = body ∧ dropNl (body ++ ['\n']) = body := by
+  have h1 : dropNl body = body := by
+    unfold dropNl
+    apply List.filter_eq_self.mpr
+    intro a ha
+    simp only [bne_iff_ne, ne_eq]
+    intro e; subst e; exact hb ha
+  refine ⟨h1, ?_⟩
+  unfold dropNl at h1 ⊢
+  rw [List.filter_append, h1]
+  simp
+
+open Tranp.Quote in
+/-- a character other than the line feed keeps its index when the line is loaded (`replace('\n', '')`, tab → blank) -/
+theorem loaded_char (c raw : Str) (hraw : raw ∈ readlines c) (i : Nat) (ch : Char) (hch : raw[i]? = some ch) (hnl : ch ≠ '\n') :
+    (tabToSpace (dropNl raw))[i]? = some (if ch = '\t' then ' ' else ch) := by
+  obtain ⟨body, hb, hr⟩ := readlines_pieces c raw hraw
+  obtain ⟨d1, d2⟩ := dropNl_of_body body hb
+  have hbody : body[i]? = some ch := by
+    rcases hr with e | e
+    · rw [← e]; exact hch
+    · rw [e] at hch
+      by_cases hi : i < body.length
+      · rwa [List.getElem?_append_left hi] at hch
+      · rw [List.getElem?_append_right (by omega)] at hch
+        cases hj : i - body.length with
+        | zero => rw [hj] at hch; simp at hch; exact absurd hch.symm hnl
+        | succ j => rw [hj] at hch; simp at hch
+  have hd : dropNl raw = body := by
+    rcases hr with e | e
+    · rw [e]; exact d1
+    · rw [e]; exact d2
+  rw [hd, getElem?_tabToSpace, hbody]
+  rfl
+
+open Tranp.Quote in
+/-- the position of a character of the text: line and column are at least 1, the line is a piece of `readlines`, and the
+    character stands at index `col − 1` of that piece -/
+theorem posOf_char (src : Str) (k : Nat) (hk : k < src.length) :
+    1 ≤ (posOf src k).line ∧ 1 ≤ (posOf src k).col
+    ∧ ∃ raw, (readlines src)[((posOf src k).line - 1).toNat]? = some raw ∧ raw[((posOf src k).col - 1).toNat]? = src[k]? := by
+  obtain ⟨h1, h2, h3, raw, hraw, hc⟩ := posFrom_char ⟨1, 1⟩ src k hk (posOf src k) rfl
+  simp only at h1 h2 h3 hraw hc
+  have hcol : 1 ≤ (posOf src k).col := by
+    by_cases he : (posOf src k).line = 1
+    · exact h2 he
+    · exact h3 he
+  have hbase : (if (posOf src k).line = 1 then (1 : Int) else 1) = 1 := by split <;> rfl
+  rw [hbase] at hc
+  exact ⟨h1, hcol, raw, hraw, hc⟩
+
 end Tranp.Hull
